@@ -170,14 +170,18 @@ Qed.
 Print Assumptions C15_every_dep_pinned.
 
 (* ---- valid TOML *)
-(* P10 the two lines that carry the project name are valid TOML for every legal name (and the
-       version line for every version made of basic characters) *)
-Theorem C15_name_lines_valid : forall n v, legal_name n = true -> forallb basic_char v = true ->
+(* P10 PARTIAL (manifest_valid_toml): the two lines that carry the project name are valid TOML for
+       every legal name (and the version line for every version made of basic characters).
+       MISSING for the full statement `legal_name (g_name g) -> manifest_ok g = true`: the dependency
+       lines with a variable root path / variable crate set; these are checked by evaluation on every
+       run instead (table_wf on the regenerated table, manifest_ok on every generated project, real
+       cargo on the project-name cases). *)
+Theorem C15_manifest_valid_toml_partial : forall n v, legal_name n = true -> forallb basic_char v = true ->
   line_ok (s "name = """ ++ n ++ s """") = true /\ line_ok (s "version = """ ++ v ++ s """") = true.
 Proof.
   intros n v Hn Hv. split; [apply name_line_ok; now apply legal_name_basic | now apply version_line_ok].
 Qed.
-Print Assumptions C15_name_lines_valid.
+Print Assumptions C15_manifest_valid_toml_partial.
 
 (* P11 refuted without the restriction: a file stem with a quote gives an invalid manifest *)
 Theorem C15_manifest_valid_refuted : exists g, Known_C15_project_name (g_name g) /\ manifest_ok g = false.
